@@ -425,23 +425,46 @@ fn add_bank_probe(s: &Scen, rng: &mut Rng, rep: &mut Report) {
     let compact: marginfi_type_crate::types::BankConfigCompact = cfg.into();
     let mint = s.banks[rng.below(s.banks.len() as u64) as usize].mint;
     let token_program = w2.token_program_of(&mint);
-    let bank = w2.new_key();
+    // a third of the probes go through lending_pool_add_bank_with_seed (the bank is a PDA of group, mint and a seed)
+    let with_seed: Option<u64> = if rng.chance(1, 3) { Some(rng.next()) } else { None };
+    let bank = match with_seed {
+        Some(sd) => Pubkey::find_program_address(&[s.group.as_ref(), mint.as_ref(), &sd.to_le_bytes()], &marginfi::ID).0,
+        None => w2.new_key(),
+    };
     let (fs_key, _) = crate::world::fixtures::fee_state_pda();
     let fee_wallet = w2.fee_state(&fs_key).global_fee_wallet;
     let vt = |t| find_bank_vault_pda(&bank, t).0;
     let va = |t| find_bank_vault_authority_pda(&bank, t).0;
     use marginfi::state::bank::BankVaultType as T;
-    let ixn = Instruction {
-        program_id: marginfi::ID,
-        accounts: marginfi::accounts::LendingPoolAddBank {
-            marginfi_group: s.group, admin: s.admin, fee_payer: s.admin, fee_state: fs_key, global_fee_wallet: fee_wallet, bank_mint: mint, bank,
-            liquidity_vault_authority: va(T::Liquidity), liquidity_vault: vt(T::Liquidity),
-            insurance_vault_authority: va(T::Insurance), insurance_vault: vt(T::Insurance),
-            fee_vault_authority: va(T::Fee), fee_vault: vt(T::Fee),
-            token_program, system_program: solana_program::system_program::ID,
-        }.to_account_metas(None),
-        data: marginfi::instruction::LendingPoolAddBank { bank_config: compact }.data(),
+    // who signs as "admin": the group admin, or somebody else (another role of the group, a stranger) — only the admin may
+    let gr0 = w2.group(&s.group);
+    let (who, signer) = match rng.below(8) { 0 => ("risk admin", gr0.risk_admin), 1 => ("stranger", w2.add_wallet(1_000_000_000)), 2 => ("curve admin", gr0.delegate_curve_admin), _ => ("group admin", s.admin) };
+    let is_admin = signer == gr0.admin;
+    let ixn = match with_seed {
+        None => Instruction {
+            program_id: marginfi::ID,
+            accounts: marginfi::accounts::LendingPoolAddBank {
+                marginfi_group: s.group, admin: signer, fee_payer: s.admin, fee_state: fs_key, global_fee_wallet: fee_wallet, bank_mint: mint, bank,
+                liquidity_vault_authority: va(T::Liquidity), liquidity_vault: vt(T::Liquidity),
+                insurance_vault_authority: va(T::Insurance), insurance_vault: vt(T::Insurance),
+                fee_vault_authority: va(T::Fee), fee_vault: vt(T::Fee),
+                token_program, system_program: solana_program::system_program::ID,
+            }.to_account_metas(None),
+            data: marginfi::instruction::LendingPoolAddBank { bank_config: compact }.data(),
+        },
+        Some(sd) => Instruction {
+            program_id: marginfi::ID,
+            accounts: marginfi::accounts::LendingPoolAddBankWithSeed {
+                marginfi_group: s.group, admin: signer, fee_payer: s.admin, fee_state: fs_key, global_fee_wallet: fee_wallet, bank_mint: mint, bank,
+                liquidity_vault_authority: va(T::Liquidity), liquidity_vault: vt(T::Liquidity),
+                insurance_vault_authority: va(T::Insurance), insurance_vault: vt(T::Insurance),
+                fee_vault_authority: va(T::Fee), fee_vault: vt(T::Fee),
+                token_program, system_program: solana_program::system_program::ID,
+            }.to_account_metas(None),
+            data: marginfi::instruction::LendingPoolAddBankWithSeed { bank_config: compact, bank_seed: sd }.data(),
+        },
     };
+    if with_seed.is_some() { rep.bump("add_bank_with_seed"); }
     let banks_before = w2.group(&s.group).banks;
     let r = w2.exec(&ixn);
     rep.bump("cases");
@@ -449,6 +472,9 @@ fn add_bank_probe(s: &Scen, rng: &mut Rng, rep: &mut Report) {
         Err(e) => rep.bump(&format!("add_bank_rej_{}", e.code().map(|c| c.to_string()).unwrap_or_else(|| format!("{}", e)))),
         Ok(()) => {
             rep.bump("add_bank_ok");
+            if !is_admin {
+                rep.fail(format!("C08 lending_pool_add_bank signed by the {} (not the group admin) was ACCEPTED", who));
+            }
             let b = w2.bank(&bank);
             let desc = format!("weights asset ({}, {}) liability ({}, {}), tier {:?}, oracle age {}, state {:?}, tag {}",
                 w(b.config.asset_weight_init), w(b.config.asset_weight_maint), w(b.config.liability_weight_init), w(b.config.liability_weight_maint),
